@@ -22,7 +22,7 @@ RULE = ('cells = (direction, filter pair from the 20 named pairs, J in 1..3, HxW
 ASSUMPTIONS = ['float64; tolerance 1e-11 * gain * max|g|', 'torch native autograd is trusted for plain torch code']
 TIMEOUT = {'quick': 900, 'thorough': 3300}
 WORKER_BUDGET = {'quick': 600, 'thorough': 2700}
-MIN_HELD = {'quick': 300, 'thorough': 1500}
+MIN_HELD = {'quick': 300, 'thorough': 37535}
 HS = [4, 5, 6, 7, 8, 10, 12, 14]
 WS = [4, 6, 8, 9, 10, 12]
 PAIRS = [(o, r) for o in range(-6, 6) for r in range(-6, 6) if o % 6 != r % 6]
